@@ -134,9 +134,16 @@ class Run(object):
     def _fire_controls(self):
         """Control requests placed at explicit positions of the history (scn['controls'])."""
         d = self.d
+        # a pending rerun fires at the first opportunity after its position (as soon as the workflow has failed)
+        if getattr(self, "_pending_rerun", False) and d.status() == st.FAILED:
+            self._pending_rerun = False
+            self.step({"op": "rerun", "tasks": None}, _ctl=True)
         while self.controls and self.controls[0][0] <= self.nsteps:
             pos, kind = self.controls.pop(0)
             s = d.status()
+            if kind == "rerun" and s != st.FAILED:
+                self._pending_rerun = True
+                continue
             if kind == "pause" and s in (st.RUNNING, st.RESUMING):
                 self.step({"op": "req", "status": st.PAUSING}, _ctl=True)
             elif kind == "pause2" and s in (st.RUNNING, st.RESUMING):
